@@ -1262,4 +1262,7 @@ def run(ctx):
     t0 = time.time()
     cli_level(ctx)
     core.log("[C12] CLI level done in %.0f s" % (time.time() - t0))
+    # a file rewritten in place DURING a cached run (external writer at a precise point): the next cached run equals the uncached one
+    from . import midrun_rt
+    midrun_rt.midrun_overwrite_check(ctx, ctx.pick(30, 400))
     ctx.extra["exhaustive"] = False
